@@ -84,6 +84,11 @@ fn main() {
                 eprintln!("MACHINERY FAILURE: {e}");
                 std::process::exit(2);
             }
+            // a fatal signal (abort on a double close, memory fault, ...) while library code runs under a
+            // check is reported as a violation of that check with the registered case (crash.rs)
+            if id.len() == 3 && id.starts_with('C') {
+                crash::install(&id);
+            }
             let mut rep = Report::new(&id, &tier, level_of(&id));
             let res = std::panic::catch_unwind(std::panic::AssertUnwindSafe(|| run_check(&id, &mut rep)));
             match res {
